@@ -32,8 +32,15 @@ def core_term(c):
                                                       c["lens"][0], c["lens"][1], c["lens"][2], c["lens"][3], c["probe_effects"], coq_bool(c["probes_ok"]))
     return "(%s, %s)" % (p3, p1)
 
+def gate_term(c):
+    return "(%s, [%s])" % (core_term(c), "; ".join("(%d, %d, %d)" % tuple(x) for x in c.get("samples", [])))
+
 PROTOS = {
+    "PG": dict(term=gate_term, typ="gcase", fn="gate_verdicts"),
+    "PF": dict(term=gate_term, typ="gcase", fn="gate_verdicts"),
+    "PW": dict(term=core_term, typ="ccase", fn="core_verdicts"),
     "P2": dict(term=p2_term, typ="p2case", fn="p2_verdicts"),
+    "P2H": dict(term=p2_term, typ="p2case", fn="p2_verdicts"),
     "P3": dict(term=core_term, typ="ccase", fn="core_verdicts"),
     "P1": dict(term=core_term, typ="ccase", fn="core_verdicts"),
     "P1F": dict(term=core_term, typ="ccase", fn="core_verdicts"),
@@ -182,7 +189,9 @@ def check_C08(run, replay=None):
                json.dumps([slim(c) for c in bad_model[:3]]))
     run.oblige("C08_ok holds on every implementation run", not bad_ok, json.dumps([slim(c) for c in bad_ok[:3]]))
     if bad_ok:
-        bad_ok.sort(key=lambda c: len(c["sched"]))
+        # deterministic (fully controlled) cases first, then gated, then uncontrolled stress runs
+        rank = {"PG": 1, "PF": 2}
+        bad_ok.sort(key=lambda c: (rank.get(c["proto"], 0), len(c["sched"])))
         run.violation("C08_ok", {"property": "C08", "what": "a controlled interleaving of the real code loses/duplicates a wake-up, event, stream item or effect, tears down a live subscription, deadlocks or panics",
                                  "cases": [slim(c) for c in bad_ok[:10]],
                                  "how_to_replay": "./check C08 --replay <this file>: re-runs every case's (proto, scen, sched) against the current code; sched = the thread released at each step, threads parked at the crux_core::verif points named in the trace"})
